@@ -56,6 +56,14 @@ package buffer
 //@   ensures [negative-offset-refused] old(off) < 0 ==> result1 != nil
 //@   ensures [skips-exactly-off] result1 == nil ==> crPos(r) - len(result0) == old(crPos(r)) + old(off)
 //@   loop 0 invariant off >= 0 && crPos(r) + off == old(crPos(r)) + old(off)
+// The same for a byte stream: it reads from the stream it is given and from
+// nothing else.
+//@ func discardFromReader
+//@   requires r != nil
+//@   modifies srcCount(r), srcEOF(r), crPos(r), rdCalls(r)
+//@   ensures [negative-offset-refused] off < 0 ==> result != nil
+//@   ensures [skips-exactly-off] result == nil ==> crPos(r) == old(crPos(r)) + off
+//@   ensures [asks-only-the-stream-it-was-given] rdCalls(r) >= old(rdCalls(r))
 
 // newOffsetChunkReader owns r from here on: on failure it closes it and hands
 // back an error reader; otherwise r itself or a wrapper that first replays the
